@@ -627,6 +627,82 @@ fn doc_stream(rep: &mut Report, rng: &mut Rng, n: usize, root_class: bool) -> Re
     Ok(())
 }
 
+
+/// the injected block as a whole: what `write_auto_styles` writes after the root start tag (isolated as the
+/// difference between the outputs with auto-styles on and off) against the Lean model Svgdx.Theme.Inject fed
+/// with the rules / definitions the code's own builder returns for the document's element and class sets
+fn inject_stream(rep: &mut Report, drv: &mut Driver, rng: &mut Rng, n: usize) -> Result<(), String> {
+    let (cols, _) = colours();
+    let mut st = Stream::new("doc/injected-block", "correspondence",
+        "generated documents with a root <svg> (the documents of oracle/doc-autostyles) under random theme / background / font / debug settings, transformed with auto-styles on and off: the text that appears between the root start tag and the rest of the document equals, byte for byte for the <style> element and up to the blank quick-xml drops before '/>' for the <defs> element, what the model of write_auto_styles (indentation, debug comments, one CDATA section split at every ]]>) writes for the builder's rules and definitions; non-trivial = something is injected");
+    for _ in 0..n {
+        let doc = gen_doc(rng, &cols, false);
+        if !doc.has_root { continue; }
+        let mut cfg = default_cfg();
+        let theme = *rng.pick(&THEMES);
+        cfg.theme = theme.parse().map_err(|_| "theme name".to_string())?;
+        cfg.background = rng.pick(&["default", "none", "#fff", "a]]>b", "x ]] > y", "url(<&>)"]).to_string();
+        if rng.chance(1, 3) { cfg.font_size = *rng.pick(&[3.0f32, 4.0, 6.0, 12.0]); }
+        if rng.chance(1, 3) { cfg.font_family = rng.pick(&["monospace", "a]]>b", "\"Fira Sans\", sans-serif"]).to_string(); }
+        cfg.debug = rng.chance(1, 3);
+        let mut off = cfg.clone();
+        off.add_auto_styles = false;
+        cfg.add_auto_styles = true;
+        let (Ok(Ok(on_out)), Ok(Ok(off_out))) = (transform(&doc.text, &cfg), transform(&doc.text, &off)) else { continue };
+        // common prefix / suffix
+        let (a, b) = (on_out.as_bytes(), off_out.as_bytes());
+        let mut p = 0; while p < a.len() && p < b.len() && a[p] == b[p] { p += 1; }
+        let mut q = 0; while q < a.len() - p && q < b.len() - p && a[a.len() - 1 - q] == b[b.len() - 1 - q] { q += 1; }
+        if p + q != b.len() { st.skipped += 1; st.tally("not-a-pure-insertion"); continue; }
+        // an insertion is determined only up to rotation when its end repeats what precedes it ("\n  <"):
+        // slide the window back until it starts where write_auto_styles starts
+        let mut t = 0;
+        while t <= p.min(16) && !(a[p - t..].starts_with(b"\n  <defs>") || a[p - t..].starts_with(b"\n  <style>")) && t < p && a[p - t - 1] == a[a.len() - q - t - 1] { t += 1; }
+        if a.len() - q > p && !(a[p - t..].starts_with(b"\n  <defs>") || a[p - t..].starts_with(b"\n  <style>")) { st.skipped += 1; st.tally("insertion-not-located"); continue; }
+        let Ok(injected) = std::str::from_utf8(&a[p - t..a.len() - q - t]) else { st.skipped += 1; continue };
+        // the element and class sets of the document, as write_auto_styles collects them
+        let Ok(outs) = parse_elements(&off_out) else { st.skipped += 1; continue };
+        let mut elements: Vec<String> = vec![];
+        let mut classes: Vec<String> = vec![];
+        for o in &outs {
+            if !elements.contains(&o.el.name) { elements.push(o.el.name.clone()); }
+            for c in classes_of(&o.el) { if !classes.contains(&c) { classes.push(c); } }
+        }
+        let fs = cfg.font_size;
+        let (th, bg, ff) = (cfg.theme.clone(), cfg.background.clone(), cfg.font_family.clone());
+        let (cl, el) = (classes.clone(), elements.clone());
+        let built = std::panic::catch_unwind(move || svgdx::verif_hooks::theme_build(theme, &cl, &el, &bg, fs, &ff, None));
+        let _ = th;
+        let Ok(Ok((defs, styles))) = built else { st.skipped += 1; continue };
+        st.case(&doc.text, !injected.is_empty(), || json!({"document": doc.text, "theme": theme, "debug": cfg.debug}));
+        let nd = defs.len().to_string();
+        let ns = styles.len().to_string();
+        let mut args: Vec<&str> = vec![if cfg.debug { "1" } else { "0" }, &nd];
+        args.extend(defs.iter().map(|s| s.as_str()));
+        args.push(&ns);
+        args.extend(styles.iter().map(|s| s.as_str()));
+        let r = drv.call("auto_style_text", &args)?;
+        if r.first().map(|s| s.as_str()) != Some("ok") || r.len() < 3 { return Err(format!("model: auto_style_text answered {r:?}")); }
+        let (m_defs, m_style) = (&r[1], &r[2]);
+        let norm = |s: &str| -> String { let mut o = s.to_string(); while o.contains(" />") { o = o.replace(" />", "/>"); } while o.contains(" >") { o = o.replace(" >", ">"); } o };
+        let replay = json!({"input": doc.text, "theme": theme, "background": cfg.background, "font_family": cfg.font_family, "font_size": cfg.font_size, "debug": cfg.debug});
+        let ok_style = injected.ends_with(m_style.as_str());
+        let head = &injected[..injected.len() - if ok_style { m_style.len() } else { 0 }];
+        if !ok_style {
+            rep.violation(Violation { kind: "correspondence", stream: st.name.clone(), signature: "inject:style".into(), what: format!("the injected text does not end with the model's <style> block: injected {:?} vs model {:?}", injected.chars().rev().take(160).collect::<String>().chars().rev().collect::<String>(), m_style.chars().rev().take(160).collect::<String>().chars().rev().collect::<String>()), replay, confirmed_on_impl: false });
+        } else if norm(head) != norm(m_defs) {
+            rep.violation(Violation { kind: "correspondence", stream: st.name.clone(), signature: "inject:defs".into(), what: format!("the injected <defs> block differs from the model's: {:?} vs {:?}", head.chars().take(200).collect::<String>(), m_defs.chars().take(200).collect::<String>()), replay, confirmed_on_impl: false });
+        } else {
+            st.exact += 1;
+            if head != m_defs.as_str() { st.tolerance += 1; }
+            if cfg.background.contains("]]>") || cfg.font_family.contains("]]>") { st.tally("cdata-terminator-in-author-string"); }
+            if cfg.debug { st.tally("debug"); }
+        }
+    }
+    rep.streams.push(st);
+    Ok(())
+}
+
 pub fn run(rep: &mut Report, tier: &str, seed: u64) -> Result<(), String> {
     let mut rng = Rng::new(seed);
     let mut drv = Driver::start()?;
@@ -636,5 +712,6 @@ pub fn run(rep: &mut Report, tier: &str, seed: u64) -> Result<(), String> {
     pattern_order(rep, &mut drv, &mut rng.fork(), if thorough { 20_000 } else { 1_000 })?;
     doc_stream(rep, &mut rng.fork(), if thorough { 40_000 } else { 3_000 }, false)?;
     doc_stream(rep, &mut rng.fork(), if thorough { 400 } else { 60 }, true)?;
+    inject_stream(rep, &mut drv, &mut rng.fork(), if thorough { 20_000 } else { 1_500 })?;
     Ok(())
 }
